@@ -91,8 +91,8 @@ def azBranches (a : Account) (res : Path) (want : Nat) : List String :=
         let ok := authorized mask want
         let wher := if anc.length = n.length then "grant-on-self" else if anc.isEmpty then "grant-on-root" else "grant-on-ancestor"
         let how :=
-          if ok then (if mask = allPriv then "allow-by-all" else "allow-by-bit")
-          else if mask &&& allPriv ≠ 0 then "deny-all-plus-other-bits" else "deny"
+          if ok then (if mask &&& want ≠ 0 then "allow-by-bit" else if mask = allPriv then "allow-by-all" else "allow-by-all-plus-other-bits")
+          else "deny"
         -- would a farther grant have decided otherwise?
         let farther := (Spec.ancestors anc).drop 1 |>.filterMap (fun x => Spec.grantAt a.grants x)
         let shadow :=
